@@ -14,6 +14,11 @@
 //	 cancels / panics while others wait     ends that way after the others have made or queued their calls; then
 //	                                        writers and readers run: no lock, transaction or value may remain);
 //	                                        lin: increments of a non-numeric value fail in the function
+//	Mutate of a value Unmarshal merges    forced mutate-set/both-read:* (map and struct-with-omitempty targets as sets of
+//	 into (map, omitted struct fields)      letters: one adds, the other removes, both have read, the holder's commit is
+//	                                        refused), mutate-set/inside, linset (random), ownset (own-letter accounting)
+//	how often a call invokes the function recorded per call (cb); every hook acts on the invocation it names, so a
+//	                                        backend that retries can invoke it any number of times
 //	AppendBytes                           append (unique tokens, per-goroutine order), lin, forced walk/append,
 //	                                        mutate/append-inside; the argument is a sub-slice of a scratch page
 //	                                        the goroutine overwrites after the call
@@ -58,7 +63,7 @@ import (
 )
 
 type Op struct {
-	Op string `json:"op"` // incr | incr-fail | incr-cancel | incr-panic | append | add | emplace | replace | remove | get | getbytes | count
+	Op string `json:"op"` // incr | incr-fail | incr-cancel | incr-panic | madd | mdel | sadd | sdel | append | add | emplace | replace | remove | get | getbytes | count
 	K  string `json:"k"`  // hex
 	V  string `json:"v,omitempty"`
 }
@@ -72,6 +77,30 @@ type Call struct {
 	B   *string `json:"b,omitempty"`
 	N   *int64  `json:"n,omitempty"`
 	Msg string  `json:"msg,omitempty"`
+	Cb  int     `json:"cb,omitempty"` // how often the call invoked the user's function
+}
+
+// setStruct is a Mutate target with fields the stored JSON may omit; setMap
+// (map[string]int) is one whose keys it may omit. json.Unmarshal MERGES into
+// both: what the JSON does not mention stays as it was. Values of these
+// targets are sets of the letters a..d: {"a":1,"c":1}.
+type setStruct struct {
+	A int `json:"a,omitempty"`
+	B int `json:"b,omitempty"`
+	C int `json:"c,omitempty"`
+	D int `json:"d,omitempty"`
+}
+
+func (s *setStruct) field(x string) *int {
+	switch x {
+	case "a":
+		return &s.A
+	case "b":
+		return &s.B
+	case "c":
+		return &s.C
+	}
+	return &s.D
 }
 
 type Final struct {
@@ -190,14 +219,18 @@ func incr(bs []byte) ([]byte, bool) {
 	return append([]byte{'1'}, out...), true
 }
 
-func apply(kv *pisces.KV, op Op) (e, msg string, b *string) {
-	e, msg, b, _ = applyCb(kv, op, nil)
+func apply(kv *pisces.KV, op Op) (e, msg string, b *string, cb int) {
+	e, msg, b, _, cb = applyCb(kv, op, nil)
 	return
 }
 
 // applyCb is apply with a hook run inside the Mutate callback (before the
 // increment), and also returns the count for op "count".
-func applyCb(kv *pisces.KV, op Op, inCallback func()) (e, msg string, b *string, n *int64) {
+// The user's function may be invoked any number of times by one call (a
+// backend may retry): it counts its invocations (cb) and hands the number to
+// the hook, and everything a hook does once (signals, stamps) it does on the
+// invocation it names.
+func applyCb(kv *pisces.KV, op Op, inCallback func(nth int)) (e, msg string, b *string, n *int64, cb int) {
 	defer func() {
 		if r := recover(); r != nil {
 			if _, mine := r.(userPanic); mine {
@@ -221,8 +254,9 @@ func applyCb(kv *pisces.KV, op Op, inCallback func()) (e, msg string, b *string,
 			for i := 0; i < 3000; i++ {
 				atomic.AddInt64(&spin, 1)
 			}
+			cb++
 			if inCallback != nil {
-				inCallback()
+				inCallback(cb)
 			}
 			switch op.Op {
 			case "incr-fail": // changes its argument, then fails
@@ -239,6 +273,38 @@ func applyCb(kv *pisces.KV, op Op, inCallback func()) (e, msg string, b *string,
 				return errUser
 			}
 			*p = json.RawMessage(nv)
+			return nil
+		})
+	case "madd", "mdel": // a map target, declared by the caller for this call
+		x := string(unhex(op.V))
+		m := map[string]int{}
+		err = kv.Mutate(k, &m, func(v interface{}) error {
+			cb++
+			if inCallback != nil {
+				inCallback(cb)
+			}
+			mm := *(v.(*map[string]int))
+			if op.Op == "madd" {
+				mm[x] = 1
+			} else {
+				delete(mm, x)
+			}
+			return nil
+		})
+	case "sadd", "sdel": // a struct target whose fields the stored JSON may omit
+		x := string(unhex(op.V))
+		var st setStruct
+		err = kv.Mutate(k, &st, func(v interface{}) error {
+			cb++
+			if inCallback != nil {
+				inCallback(cb)
+			}
+			f := v.(*setStruct).field(x)
+			if op.Op == "sadd" {
+				*f = 1
+			} else {
+				*f = 0
+			}
 			return nil
 		})
 	case "append":
@@ -360,7 +426,7 @@ func execute(kv *pisces.KV, progs [][]Op) []Call {
 			for _, op := range progs[t] {
 				c := Call{T: t, Op: op}
 				c.Inv = atomic.AddInt64(&clock, 1)
-				c.E, c.Msg, c.B = apply(kv, op)
+				c.E, c.Msg, c.B, c.Cb = apply(kv, op)
 				c.Ret = atomic.AddInt64(&clock, 1)
 				out[t] = append(out[t], c)
 			}
@@ -400,7 +466,7 @@ func executeRounds(kv *pisces.KV, progs [][]Op, every int) []Call {
 				}
 				c := Call{T: t, Op: op}
 				c.Inv = atomic.AddInt64(&clock, 1)
-				c.E, c.Msg, c.B = apply(kv, op)
+				c.E, c.Msg, c.B, c.Cb = apply(kv, op)
 				c.Ret = atomic.AddInt64(&clock, 1)
 				out[t] = append(out[t], c)
 			}
@@ -484,10 +550,10 @@ type forcedRec struct {
 	kv    *pisces.KV
 }
 
-func (f *forcedRec) timed(t int, op Op, inCallback func()) Call {
+func (f *forcedRec) timed(t int, op Op, inCallback func(nth int)) Call {
 	c := Call{T: t, Op: op}
 	c.Inv = atomic.AddInt64(&f.clock, 1)
-	c.E, c.Msg, c.B, c.N = applyCb(f.kv, op, inCallback)
+	c.E, c.Msg, c.B, c.N, c.Cb = applyCb(f.kv, op, inCallback)
 	c.Ret = atomic.AddInt64(&f.clock, 1)
 	return c
 }
@@ -621,6 +687,15 @@ func forcedMutate(kv *pisces.KV, k string, during []Op, bothRead bool, after []O
 // incr-cancel, incr-panic): its function fails, cancels or panics after the
 // other goroutine has made (or queued) its calls.
 func forcedMutateAs(kv *pisces.KV, holder, k string, during []Op, bothRead bool, after []Op) ([]Call, *Hold) {
+	return forcedMutateOp(kv, Op{Op: holder, K: k}, during, bothRead, after, forcedWait)
+}
+
+// forcedMutateOp: the holder is any Mutate. With bothRead the first call of
+// [during] is a Mutate whose function, once entered, waits until the holder's
+// call has returned - at most innerWait (a holder that does not return but
+// tries again, because its commit was refused while the other had read, then
+// finds the other's update committed).
+func forcedMutateOp(kv *pisces.KV, holder Op, during []Op, bothRead bool, after []Op, innerWait time.Duration) ([]Call, *Hold) {
 	f := &forcedRec{kv: kv}
 	hold := &Hold{Writer: true}
 	var c1 []Call
@@ -628,13 +703,25 @@ func forcedMutateAs(kv *pisces.KV, holder, k string, during []Op, bothRead bool,
 	d1 := make(chan struct{})
 	entered := make(chan struct{})
 	zeroDone := make(chan struct{})
-	c0 := f.timed(0, Op{Op: holder, K: k}, func() {
+	c0 := f.timed(0, holder, func(nth int) {
+		if nth > 1 {
+			return // the schedule is set up by the first invocation
+		}
 		hold.Mid = atomic.AddInt64(&f.clock, 1)
 		go func() {
 			for i, op := range during {
-				var cb func()
+				var cb func(int)
 				if bothRead && i == 0 {
-					cb = func() { close(entered); waitFor(zeroDone) }
+					cb = func(nth int) {
+						if nth > 1 {
+							return
+						}
+						close(entered)
+						select {
+						case <-zeroDone:
+						case <-time.After(innerWait):
+						}
+					}
 				}
 				c := f.timed(1, op, cb)
 				mu.Lock()
@@ -668,7 +755,13 @@ type forcedCase struct {
 	run  func(kv *pisces.KV) ([]Call, *Hold)
 }
 
-func forcedFamily(a, b, n string) []forcedCase {
+func setBoth(name string, holder, other Op, wait time.Duration, m string, rdc []Op) forcedCase {
+	return forcedCase{"mutate-set/both-read:" + name, func(kv *pisces.KV) ([]Call, *Hold) {
+		return forcedMutateOp(kv, holder, []Op{other}, true, append([]Op{{Op: "getbytes", K: m}}, rdc...), wait)
+	}}
+}
+
+func forcedFamily(a, b, n, m string) []forcedCase {
 	rd := []Op{{Op: "getbytes", K: a}, {Op: "getbytes", K: b}, {Op: "getbytes", K: n}}
 	rdc := append(append([]Op{}, rd...), Op{Op: "count"})
 	// afterwards: writers first (they need what the holder held), then the readers
@@ -728,6 +821,18 @@ func forcedFamily(a, b, n string) []forcedCase {
 		}},
 		{"mutate-panic/both-read", func(kv *pisces.KV) ([]Call, *Hold) {
 			return forcedMutateAs(kv, "incr-panic", a, []Op{{Op: "incr", K: a}}, true, wrc)
+		}},
+		// Mutates of a value into which json.Unmarshal merges (a map, a struct with omitted fields): one
+		// adds an element, the other removes one; both have read before either writes. A Mutate that
+		// reports success must have been applied to the value that was stored when it took effect.
+		setBoth("map/2ms", Op{Op: "madd", K: m, V: h("c")}, Op{Op: "mdel", K: m, V: h("b")}, 2*time.Millisecond, m, rdc),
+		setBoth("map/3ms", Op{Op: "madd", K: m, V: h("c")}, Op{Op: "mdel", K: m, V: h("b")}, 3*time.Millisecond, m, rdc),
+		setBoth("map/4ms", Op{Op: "madd", K: m, V: h("c")}, Op{Op: "mdel", K: m, V: h("b")}, 4*time.Millisecond, m, rdc),
+		setBoth("struct/3ms", Op{Op: "sadd", K: m, V: h("c")}, Op{Op: "sdel", K: m, V: h("b")}, 3*time.Millisecond, m, rdc),
+		setBoth("struct/8ms", Op{Op: "sdel", K: m, V: h("a")}, Op{Op: "sdel", K: m, V: h("b")}, 8*time.Millisecond, m, rdc),
+		{"mutate-set/inside", func(kv *pisces.KV) ([]Call, *Hold) {
+			return forcedMutateOp(kv, Op{Op: "madd", K: m, V: h("c")}, []Op{{Op: "mdel", K: m, V: h("b")}, {Op: "sadd", K: m, V: h("d")}},
+				false, append([]Op{{Op: "getbytes", K: m}}, rdc...), forcedWait)
 		}},
 		// a walk that ends by an error, a cancel or a panic of its Do while a writer was refused / queued
 		{"walk-fail/incr", func(kv *pisces.KV) ([]Call, *Hold) {
@@ -795,10 +900,12 @@ func main() {
 
 	// corpus first: the family of forced schedules
 	newKey := h("n")
+	setKey := h("m")
 	for _, backend := range []string{"mem", "sqlite"} {
-		for _, fc := range forcedFamily(linKeys[0], linKeys[1], newKey) {
+		for _, fc := range forcedFamily(linKeys[0], linKeys[1], newKey, setKey) {
 			kv := ev.fresh(backend)
-			init := []Op{{Op: "add", K: linKeys[0], V: h("0")}, {Op: "add", K: linKeys[1], V: h("9")}}
+			init := []Op{{Op: "add", K: linKeys[0], V: h("0")}, {Op: "add", K: linKeys[1], V: h("9")},
+				{Op: "add", K: setKey, V: h(`{"a":1,"b":1}`)}}
 			for _, op := range init {
 				apply(kv, op)
 			}
@@ -820,7 +927,7 @@ func main() {
 				continue
 			}
 			emit(Run{Stream: "forced", Name: fc.name, Backend: backend, Threads: 4, Init: init, Calls: calls,
-				Final: finals(kv, []string{linKeys[0], linKeys[1], newKey}), Count: count(kv), Hold: hold})
+				Final: finals(kv, []string{linKeys[0], linKeys[1], newKey, setKey}), Count: count(kv), Hold: hold})
 		}
 	}
 
@@ -849,6 +956,60 @@ func main() {
 			calls := execute(kv, progs)
 			emit(Run{Stream: "lin", Backend: backend, Threads: nt, Init: init, Calls: calls,
 				Final: finals(kv, linKeys), Count: count(kv)})
+		}
+		// the same with set-valued entries (map and struct targets): adds and removals of elements
+		setTexts := []string{`{}`, `{"a":1}`, `{"a":1,"b":1}`, `{"b":1,"d":1}`, `{"a":1,"b":1,"c":1,"d":1}`}
+		letters := []string{"a", "b", "c", "d"}
+		for j := 0; j < *nlin/3; j++ {
+			kv := ev.fresh(backend)
+			var init []Op
+			if r.Intn(4) != 0 {
+				init = append(init, Op{Op: "add", K: setKey, V: h(setTexts[r.Intn(len(setTexts))])})
+			}
+			for _, op := range init {
+				apply(kv, op)
+			}
+			nt := 2 + r.Intn(2)
+			progs := make([][]Op, nt)
+			for t := range progs {
+				n := 1 + r.Intn(3)
+				for x := 0; x < n; x++ {
+					var op Op
+					switch r.Intn(8) {
+					case 0:
+						op = Op{Op: "getbytes", K: setKey}
+					case 1:
+						op = Op{Op: "replace", K: setKey, V: h(setTexts[r.Intn(len(setTexts))])}
+					default:
+						op = Op{Op: []string{"madd", "mdel", "sadd", "sdel"}[r.Intn(4)], K: setKey, V: h(letters[r.Intn(4)])}
+					}
+					progs[t] = append(progs[t], op)
+				}
+			}
+			calls := execute(kv, progs)
+			emit(Run{Stream: "linset", Backend: backend, Threads: nt, Init: init, Calls: calls,
+				Final: finals(kv, []string{setKey}), Count: count(kv)})
+		}
+		// own element: goroutine t adds and removes its own letter of one shared set, over and over;
+		// in the end a letter is in the set iff its goroutine's last successful Mutate was an add
+		for j := 0; j < *nacc; j++ {
+			kv := ev.fresh(backend)
+			init := []Op{{Op: "add", K: setKey, V: h(`{}`)}}
+			apply(kv, init[0])
+			nt := 2 + r.Intn(3)
+			progs := make([][]Op, nt)
+			for t := range progs {
+				kinds := []string{"madd", "mdel"}
+				if t%2 == 1 {
+					kinds = []string{"sadd", "sdel"}
+				}
+				for x := 0; x < *per; x++ {
+					progs[t] = append(progs[t], Op{Op: kinds[x%2], K: setKey, V: h(letters[t])})
+				}
+			}
+			calls := execute(kv, progs)
+			emit(Run{Stream: "ownset", Backend: backend, Threads: nt, Init: init, Calls: calls,
+				Final: finals(kv, []string{setKey}), Count: count(kv)})
 		}
 		for j := 0; j < *nacc; j++ {
 			nt := *threads
